@@ -5,6 +5,9 @@ cd "$(dirname "$0")/harness"
 export CARGO_NET_OFFLINE=true
 [ -f Cargo.lock ] || cp /repo/Cargo.lock Cargo.lock
 RUSTFLAGS="--cfg rngs_verif" cargo build --offline --profile checked --bin monitor
+# the same monitor without overflow checks / debug assertions, and with rand_jitter's log feature
+RUSTFLAGS="--cfg rngs_verif" cargo build --offline --profile o3n --bin monitor
+RUSTFLAGS="--cfg rngs_verif" cargo build --offline --profile checked --bin monitor --features jlog --target-dir target-jlog
 # pre-build the eight C18 configurations (the check rebuilds what changed)
 for prof in o0c o0n o3c o3n; do
   RUSTFLAGS="" cargo build --offline --profile $prof --bin digest --target-dir target-c18-$prof-serde &
